@@ -1013,6 +1013,10 @@ func (t *Terms) purity(f *ssa.Function) int {
 			if localOnly && (strings.HasPrefix(n, "(*strings.Builder).") || strings.HasPrefix(n, "(*bytes.Buffer).")) {
 				return
 			}
+			// sorting a list that was made in this function rearranges nothing anybody else sees
+			if (n == "sort.Ints" || n == "sort.Strings") && len(x.Common().Args) == 1 && localSlice(x.Common().Args[0], map[ssa.Value]bool{}) {
+				return
+			}
 			p = purImpure
 		}
 	})
